@@ -224,7 +224,17 @@ func (m *MethodExpr) Validate() error {
 // bases recursively looking for an attribute with the given tag meta. This
 // recursion is only needed for attributes that have not been finalized yet.
 func hasTag(p *AttributeExpr, tag string) bool {
-	if p.HasTag(tag) {
+	return hasTagRec(p, func(a *AttributeExpr) bool { return a.HasTag(tag) }, make(map[*AttributeExpr]struct{}))
+}
+
+// hasTagRec implements hasTag and hasTagPrefix, seen guards against types that
+// extend each other.
+func hasTagRec(p *AttributeExpr, has func(*AttributeExpr) bool, seen map[*AttributeExpr]struct{}) bool {
+	if _, ok := seen[p]; ok {
+		return false
+	}
+	seen[p] = struct{}{}
+	if has(p) {
 		return true
 	}
 	for _, base := range p.Bases {
@@ -232,12 +242,12 @@ func hasTag(p *AttributeExpr, tag string) bool {
 		if !ok {
 			continue
 		}
-		if hasTag(ut.Attribute(), tag) {
+		if hasTagRec(ut.Attribute(), has, seen) {
 			return true
 		}
 	}
 	if ut, ok := p.Type.(UserType); ok {
-		return hasTag(ut.Attribute(), tag)
+		return hasTagRec(ut.Attribute(), has, seen)
 	}
 	return false
 }
@@ -246,22 +256,7 @@ func hasTag(p *AttributeExpr, tag string) bool {
 // bases recursively looking for an attribute with the given tag meta prefix. This
 // recursion is only needed for attributes that have not been finalized yet.
 func hasTagPrefix(p *AttributeExpr, prefix string) bool {
-	if p.HasTagPrefix(prefix) {
-		return true
-	}
-	for _, base := range p.Bases {
-		ut, ok := base.(UserType)
-		if !ok {
-			continue
-		}
-		if hasTagPrefix(ut.Attribute(), prefix) {
-			return true
-		}
-	}
-	if ut, ok := p.Type.(UserType); ok {
-		return hasTagPrefix(ut.Attribute(), prefix)
-	}
-	return false
+	return hasTagRec(p, func(a *AttributeExpr) bool { return a.HasTagPrefix(prefix) }, make(map[*AttributeExpr]struct{}))
 }
 
 // Finalize makes sure the method payload and result types are set. It also
